@@ -29,6 +29,7 @@ LEVEL_TEXT = (
     "standard error. The matrix is complete; corruptions and CSV contents are sampled."
     " A plug-in command raising 30 different exception classes at three positions of a model, a CSV field beyond the csv module's limit, and non-finite number texts are part of the matrix."
 )
+LEVEL_TEXT += ' Added later: digit-like characters that int() rejects among the raw kinds of the matrix.'
 LEVEL_NOTE = "UnexpectedError is an MPilotError and therefore an allowed outcome; what a SyntaxError looks like through the CLI is not part of the statement."
 RULE = (
     "Cases: (matrix) library, command, parameter, raw kind; (corrupt) model or rendering + corruption; (csv) model + "
